@@ -330,10 +330,10 @@ Proof. intros a b c (A1 & A2 & A3) (B1 & B2 & B3). unfold keeps. ssplit; auto; c
 Definition has_failing_part (p : part) : bool := pfail (p_prod p).
 Definition has_failing_file (f : file) : bool := pfail (f_prod f).
 
-Lemma write_part_spec : forall cs p st,
-  Inv st -> keeps st (write_part cs p st) /\ (pfail (p_prod p) = true -> err (write_part cs p st) = true).
+Lemma write_part_spec : forall we cs p st,
+  Inv st -> keeps st (write_part we cs p st) /\ (pfail (p_prod p) = true -> err (write_part we cs p st) = true).
 Proof.
-  intros cs p st HI. unfold write_part.
+  intros we cs p st HI. unfold write_part.
   set (ctype := p_ctype p ++ bs "; charset=" ++ _).
   destruct (Nat.eqb_spec (depth st) 0) as [Hz|Hnz].
   - set (st1 := write_string crlf _).
@@ -392,16 +392,16 @@ Proof.
     destruct Hex as [Hx|Hx]; [apply Hm3, Hp2, Hx|apply Hp3, Hx].
 Qed.
 
-Lemma write_parts_spec : forall cs parts st,
+Lemma write_parts_spec : forall we cs parts st,
   Inv st ->
-  keeps st (fold_left (fun s p => s |> write_part cs p) parts st) /\
+  keeps st (fold_left (fun s p => s |> write_part we cs p) parts st) /\
   (existsb has_failing_part parts = true ->
-   err (fold_left (fun s p => s |> write_part cs p) parts st) = true).
+   err (fold_left (fun s p => s |> write_part we cs p) parts st) = true).
 Proof.
-  intros cs parts. induction parts as [|p rest IH]; intros st HI; cbn [fold_left existsb].
+  intros we cs parts. induction parts as [|p rest IH]; intros st HI; cbn [fold_left existsb].
   - unfold keeps. ssplit; auto. discriminate.
   - rewrite andthen_run by (apply HI).
-    destruct (write_part_spec cs p st HI) as ((HI1 & Hm1 & Hd1) & Hp1).
+    destruct (write_part_spec we cs p st HI) as ((HI1 & Hm1 & Hd1) & Hp1).
     destruct (IH _ HI1) as ((HI2 & Hm2 & Hd2) & Hp2).
     unfold keeps. ssplit; auto; try lia.
     unfold has_failing_part at 1. intros Hex. apply orb_true_iff in Hex.
@@ -470,7 +470,7 @@ Proof.
   set (st6 := open_mp (has_related m) _ _ _ st5) in *.
   destruct (open_mp_spec (has_alt m) Gen.mime_alternative (m_balt m) (z_bad_alt z) st6 HI6) as (HI7 & Hm7).
   set (st7 := open_mp (has_alt m) _ _ _ st6) in *.
-  destruct (write_parts_spec (m_charset m) (m_parts m) st7 HI7) as ((HI8 & Hm8 & _) & Hp8).
+  destruct (write_parts_spec (m_wenc m) (m_charset m) (m_parts m) st7 HI7) as ((HI8 & Hm8 & _) & Hp8).
   fold (write_parts m st7) in *.
   destruct (close_mp_spec (has_alt m) (write_parts m st7) HI8) as (HI9 & Hm9).
   set (st9 := close_mp (has_alt m) (write_parts m st7)) in *.
